@@ -268,7 +268,16 @@ where
             if let Some(pos) = self.incomplete_pos.take() {
                 // resume incomplete search after previous read_record_set(), or
                 // after a seek() call.
-                if !try_opt!(self.resume_incomplete_search(pos, is_new)) {
+                let found = match self.resume_incomplete_search(pos, is_new) {
+                    Ok(found) => found,
+                    Err(e) => {
+                        // the positions collected so far refer to the buffer of
+                        // the reader, which has not been copied to the record set
+                        rset.buf_positions.clear();
+                        return Some(Err(e));
+                    }
+                };
+                if !found {
                     // end of input: return the records found so far (if any)
                     if rset.buf_positions.is_empty() {
                         return None;
@@ -278,7 +287,15 @@ where
             } else {
                 // search the next complete record after `next()`, or in
                 // later iterations of this loop
-                if !try_opt!(self.search()) {
+                let found = match self.search() {
+                    Ok(found) => found,
+                    Err(e) => {
+                        // see above
+                        rset.buf_positions.clear();
+                        return Some(Err(e));
+                    }
+                };
+                if !found {
                     // At least one record must be present. If not, continue
                     // with `resume_incomplete_search()` in next iteration
                     if rset.buf_positions.is_empty() {
